@@ -1,6 +1,7 @@
 package main
 
 import (
+	"compress/gzip"
 	"context"
 	"fmt"
 	"go/ast"
@@ -38,6 +39,9 @@ type c17run struct {
 	shape  string
 	fault  map[string]int // file base name -> the first download of it is cut after this many body bytes
 }
+
+// httpShapes: ways in which the upstream stand-in dresses the same body.
+var httpShapes = []string{"utf8", "no-charset", "octet-stream", "gzip", "chunked-small", "no-content-type"}
 
 // nonEmptyLines is the specification: the list must hold exactly these.
 func nonEmptyLines(body string) []string {
@@ -317,6 +321,7 @@ func checkC17(e *Env) {
 	pairs := 0
 	rebuilds := 0
 	voidE2E := newCounter()
+	httpShapeSeen := newCounter()
 
 	runs := e.c17runs()
 	parallel(len(runs), max(1, e.Workers/2), func(ri int) {
@@ -370,7 +375,44 @@ func checkC17(e *Env) {
 					}
 				}
 			}
-			w.Header().Set("Content-Type", "text/plain; charset=utf-8")
+			// how the upstream dresses the same bytes varies from run to run: none of it may
+			// change what the tool writes
+			shape := httpShapes[ri%len(httpShapes)]
+			httpShapeSeen.Inc(shape)
+			switch shape {
+			case "utf8":
+				w.Header().Set("Content-Type", "text/plain; charset=utf-8")
+			case "no-charset":
+				w.Header().Set("Content-Type", "text/plain")
+			case "octet-stream":
+				w.Header().Set("Content-Type", "application/octet-stream")
+			case "no-content-type":
+				w.Header()["Content-Type"] = nil
+			case "gzip":
+				w.Header().Set("Content-Type", "text/plain; charset=utf-8")
+				if strings.Contains(rq.Header.Get("Accept-Encoding"), "gzip") {
+					w.Header().Set("Content-Encoding", "gzip")
+					zw := gzip.NewWriter(w)
+					io.WriteString(zw, body)
+					zw.Close()
+					return
+				}
+			case "chunked-small":
+				w.Header().Set("Content-Type", "text/plain; charset=utf-8")
+				fl, _ := w.(http.Flusher)
+				for off := 0; off < len(body); {
+					n := 1 + (off*7+ri)%977
+					if off+n > len(body) {
+						n = len(body) - off
+					}
+					io.WriteString(w, body[off:off+n])
+					if fl != nil {
+						fl.Flush()
+					}
+					off += n
+				}
+				return
+			}
 			io.WriteString(w, body)
 		})}
 		go srv.Serve(ln)
@@ -574,15 +616,16 @@ func checkC17(e *Env) {
 	e.WriteEvidence("exploration", map[string]any{
 		"evaluations":                 pairs,
 		"distinct_nontrivial":         dist.Len(),
-		"rule":                        "a case is one (target file, upstream body) pair; one run of the tool (built from the tree with the verif fetch-redirect hook, run in a scratch directory against a loopback HTTP server operated by the parent) yields ten pairs; inputs: the canonical lists, and seeded LF-separated files of letters and combining marks (Latin, Greek, Cyrillic, Hebrew, Arabic, Devanagari, Thai, Hangul jamo and syllables, kana, CJK incl. plane 2, ligatures, full-width and mathematical letters; marks also leading, doubled and in non-canonical order; Go keywords; words up to 3000 letters) with 0, 1, 2, 17, 300, 2048 and 5000 words, with and without trailing newline and with blank lines at start, middle, end and in runs; every generated file is parsed and type-checked (all ten as one package), its literals compared byte-for-byte with the non-empty input lines, its variable name compared with the committed file's, the request log compared with the ten expected paths; runs with ten 2048-word inputs are additionally rebuilt into a scratch copy of the repository whose API must emit, per language, the words served under that language's file name (when it does not, the same words written into the package by the harness are observed as a control: the tool is blamed only when the control is clean); fault runs in which the first download of one to three files is cut inside the body (full Content-Length declared): a tool that gives up is not judged, one that reports success is judged like any other run; non-trivial = every pair; distinct by (file, body)",
+		"rule":                        "a case is one (target file, upstream body) pair; one run of the tool (built from the tree with the verif fetch-redirect hook, run in a scratch directory against a loopback HTTP server operated by the parent) yields ten pairs; inputs: the canonical lists, and seeded LF-separated files of letters and combining marks (Latin, Greek, Cyrillic, Hebrew, Arabic, Devanagari, Thai, Hangul jamo and syllables, kana, CJK incl. plane 2, ligatures, full-width and mathematical letters; marks also leading, doubled and in non-canonical order; Go keywords; words up to 3000 letters) with 0, 1, 2, 17, 300, 2048 and 5000 words, with and without trailing newline and with blank lines at start, middle, end and in runs; every generated file is parsed and type-checked (all ten as one package), its literals compared byte-for-byte with the non-empty input lines, its variable name compared with the committed file's, the request log compared with the ten expected paths; runs with ten 2048-word inputs are additionally rebuilt into a scratch copy of the repository whose API must emit, per language, the words served under that language's file name (when it does not, the same words written into the package by the harness are observed as a control: the tool is blamed only when the control is clean); the upstream stand-in varies how it dresses the same bytes from run to run (Content-Type with or without a charset, octet-stream, no Content-Type, gzip content encoding, small chunks); fault runs in which the first download of one to three files is cut inside the body (full Content-Length declared): a tool that gives up is not judged, one that reports success is judged like any other run; non-trivial = every pair; distinct by (file, body)",
 		"samples":                     smp.List(),
 		"tool_runs":                   obs.Get("tool_runs"),
 		"observations":                obs.Map(),
 		"words_compared":              wordsCompared,
 		"scratch_repository_rebuilds": rebuilds,
 		"end_to_end_runs_void_because_the_library_misreports_harness_written_lists_too": voidE2E.Map(),
-		"requests_per_file": requests.Map(),
-		"input_shapes":      len(shapes.Map()),
+		"requests_per_file":       requests.Map(),
+		"responses_by_http_shape": httpShapeSeen.Map(),
+		"input_shapes":            len(shapes.Map()),
 	}, []string{
 		"loopback HTTP works in the sandbox; the hook only rewrites scheme and host of the tool's requests, the path (file name to variable mapping) is the tool's own",
 		"characters outside the property's domain (quotes, <, &, backslash, CR) are not generated",
